@@ -725,8 +725,11 @@ def c13(run):
                 "would give; the driver replays the history on ONE reused authorizer. Non-trivial = distinct histories.")
     run.assumptions = AUTHZ_ASSUME
     t = "thorough" if run.tier == "thorough" else "quick"
-    life_check(run, [("Lifecycle_reset_" + t, "L1 ResetClean + export of all round histories", {}),
-                     ("Lifecycle_neg_base", "negative model: base world overwritten after Authorize", {"expect_violation": True})])
+    cfgs = [("Lifecycle_reset_" + t, "L1 ResetClean + export of all round histories", {}),
+            ("Lifecycle_neg_base", "negative model: base world overwritten after Authorize", {"expect_violation": True})]
+    if run.tier == "thorough":
+        cfgs.insert(1, ("Lifecycle_reset_sim", "L1 ResetClean on simulated 3-round histories + export", {"simulate": 400, "depth": 30, "seed": run.seed, "workers": 8}))
+    life_check(run, cfgs)
 
 
 @check("C18")
